@@ -28,6 +28,10 @@ Definition bind {St A B} (m : M St A) (k : A -> M St B) : M St B :=
 Notation "x <- m ;; k" := (bind m (fun x => k)) (at level 61, m at next level, right associativity).
 Notation "m ;;; k" := (bind m (fun _ => k)) (at level 61, right associativity).
 
+(* try: m except: None -- the state an exception leaves is kept *)
+Definition try {St A} (m : M St A) : M St (option A) :=
+  fun s => match m s with OK a s' => OK (Some a) s' | Err s' => OK None s' end.
+
 (* for x in l: f x *)
 Fixpoint miter {St A} (f : A -> M St unit) (l : list A) : M St unit :=
   match l with
@@ -143,15 +147,19 @@ Definition pq_read_file (p : path) : M St (list cell) :=
     match c with CRows cells => ret cells | _ => fail end
   else fail.
 
-(* read_parquet(<list of files>): ParquetDataset inspects the first file for the schema,
-   then reads every file in the order given *)
+(* read_parquet(<list of files>): ParquetDataset inspects the first file for the schema
+   (an error there is raised at once), then the scanner visits every file in the order
+   given; an error on one file does not keep it from visiting the others, it is raised
+   once all have been visited (recorded from the real library) *)
 Definition pq_read_list (l : list path) : M St (list cell) :=
   match l with
   | [] => fail
   | p0 :: _ =>
       pq_read_file p0 ;;;
-      cs <- mmap pq_read_file l ;;
-      ret (List.concat cs)
+      rs <- mmap (fun p => try (pq_read_file p)) l ;;
+      if forallb (fun r => match r with Some _ => true | None => false end) rs
+      then ret (List.concat (map (fun r => match r with Some c => c | None => [] end) rs))
+      else fail
   end.
 
 (* read_parquet_retry(parts_tmp_path, subpart_paths, part_output_path) *)
